@@ -344,9 +344,11 @@ def c19_run(ctx):
 
     # (programs that use two features at once, too: a switch the program does not use may sit between the code of two
     #  features it does use — seed C19e moved load()'s plan reset inside the history `#if`)
-    scenarios = [((), False), ((), True), (("plans",), False), (("history",), False), (("serial",), True), (("plans", "serial"), False)]
-    if ctx.thorough:
-        scenarios += [(("plans",), True), (("history",), True), (("serial",), False), (("plans", "serial"), True),
+    # (the final exit is only visible under manual activation: seed C19g chained two feature blocks of finalExit() with #elif)
+    scenarios = [((), False), ((), True), (("plans",), False), (("history",), False), (("history",), True), (("serial",), True),
+                 (("plans", "serial"), False)]
+    if ctx.thorough or ctx.widen:
+        scenarios += [(("plans",), True), (("serial",), False), (("plans", "serial"), True),
                       (("plans", "history"), False), (("history", "serial"), True), (("plans", "history", "serial"), False)]
     extras = [(), ("FFSM2_ENABLE_STRUCTURE_REPORT",), ("FFSM2_ENABLE_DEBUG_STATE_TYPE",), ("FFSM2_DISABLE_TYPEINDEX",),
               ("FFSM2_ENABLE_STRUCTURE_REPORT", "FFSM2_ENABLE_DEBUG_STATE_TYPE", "FFSM2_DISABLE_TYPEINDEX")]
@@ -569,8 +571,8 @@ REGISTRY = {
     "C15": Spec("FFSM2.Props.C15", ["layers"], c15_run, extra=("FFSM2.Props.LayersHistory",)),
     "C20": Spec("FFSM2.Props.C20", ["contain", "buffers"], container_run(["bitarray", "static", "dynamic"])),
     "C10": Spec("FFSM2.Props.C10", ["config", "ids"], c10_run, extra=("FFSM2.Props.History", "FFSM2.Props.PlanHistory")),
-    "C18": Spec("FFSM2.Props.C18", [], c18_run, level="other", explanation="Partial by nature: a theorem about a model cannot exhibit heap allocation or undefined behaviour of compiled C++. Executed here: both correspondence harnesses rebuilt with ASan+UBSan (-fno-sanitize-recover=all) and run on generated in-contract histories (payloads of alignment 1/8/16, plans at full capacity, n=1..7 quick / up to 64 thorough); a valgrind memcheck pass of the machine harness with the memory under every fresh instance marked indeterminate; an allocation probe that wraps malloc/calloc/realloc/free and operator new/delete around a scenario touching the whole API; thorough: nm -u symbol scan. The model-side index/range/alignment theorems are listed in DESIGN.md §9 C18."),
-    "C19": Spec("FFSM2.Props.C19", [], c19_run, extra=("FFSM2.Props.NeutralHistory",), level="other", explanation="Partial by nature: 'compiles under every switch/standard/compiler' and 'the shipped header equals the amalgamation' are facts about files and compilers. Executed here: -fsyntax-only of an API-instantiating TU under all 256 switch combinations + FFSM2_ENABLE_ALL (quick: g++ C++11 and clang++ C++20; thorough: 2 compilers x 4 standards); tools/join.py re-run on a scratch copy and byte-compared; a feature-free scenario run under 8 (thorough 16) feature subsets + STRUCTURE_REPORT/DEBUG_STATE_TYPE/DISABLE_TYPEINDEX whose projected traces must be identical and equal to the model's."),
+    "C18": Spec("FFSM2.Props.C18", [], c18_run, extra=("FFSM2.Props.StreamReach",), level="other", explanation="Partial by nature: a theorem about a model cannot exhibit heap allocation or undefined behaviour of compiled C++. Executed here: both correspondence harnesses rebuilt with ASan+UBSan (-fno-sanitize-recover=all) and run on generated in-contract histories (payloads of alignment 1/8/16, plans at full capacity, n=1..7 quick / up to 64 thorough); a valgrind memcheck pass of the machine harness with the memory under every fresh instance marked indeterminate; an allocation probe that wraps malloc/calloc/realloc/free and operator new/delete around a scenario touching the whole API; thorough: nm -u symbol scan. The model-side index/range/alignment theorems are listed in DESIGN.md §9 C18."),
+    "C19": Spec("FFSM2.Props.C19", ["resets"], c19_run, extra=("FFSM2.Props.NeutralHistory", "FFSM2.Props.Resets"), level="other", explanation="Partial by nature: 'compiles under every switch/standard/compiler' and 'the shipped header equals the amalgamation' are facts about files and compilers. Executed here: -fsyntax-only of an API-instantiating TU under all 256 switch combinations + FFSM2_ENABLE_ALL (quick: g++ C++11 and clang++ C++20; thorough: 2 compilers x 4 standards); tools/join.py re-run on a scratch copy and byte-compared; a feature-free scenario run under 8 (thorough 16) feature subsets + STRUCTURE_REPORT/DEBUG_STATE_TYPE/DISABLE_TYPEINDEX whose projected traces must be identical and equal to the model's."),
     "C01": Spec("FFSM2.Props.C01", ["ids", "resets"], machine_run("C01"), extra=("FFSM2.Props.History", "FFSM2.Props.Resets")),
     "C02": Spec("FFSM2.Props.C02", ["ids", "config"], machine_run("C02", ("random", "pingpong")), extra=("FFSM2.Props.History", "FFSM2.Props.OutcomeHistory")),
     "C03": Spec("FFSM2.Props.C03", ["ids", "config"], machine_run("C03", ("random", "pingpong")), extra=("FFSM2.Props.History", "FFSM2.Props.VetoHistory")),
